@@ -29,7 +29,8 @@ import math
 
 import numpy as np
 
-from lib import Checker, bits_equal, digest
+from lib import (Checker, bits_equal, digest, fp_xarray, history_refs,
+                 history_seqs, history_cases, run_history)
 
 PROPERTY = "C18"
 RULE = ("cases = (tool, image shape) blocks over every shape of [3..8]^2 "
@@ -269,6 +270,22 @@ def cases(tier, seed):
             out.append({"id": "%s:%dx%d" % (tool, nx, ny), "kind": tool,
                         "nx": nx, "ny": ny, "tier": tier})
     out.append({"id": "bg:refusals", "kind": "bgrefuse", "tier": tier})
+    # histories: the frames of a recording pass through the tools one after
+    # another in one interpreter
+    hops = ["%s@%s" % (t, v) for t in HIST_TOOLS for v in HIST_VARIANTS]
+    refs = history_refs(_hist_op, hops)
+    if tier == "quick":
+        # every ordered pair over the whole alphabet; length 3 inside one
+        # tool over the frames A, B, C
+        seqs = history_seqs(hops, depth=2)
+        for t in HIST_TOOLS:
+            mine = [o for o in hops if o.split("@")[0] == t
+                    and o[-1] in "ABC"]
+            seqs += [list(q) for q in itertools.product(mine, repeat=3)]
+    else:
+        core = [o for o in hops if o[-1] in "ABC"]
+        seqs = history_seqs(hops, core=core, depth=3)
+    out += history_cases("hist", refs, seqs, tier=tier)
     for (nx, ny) in ((4, 5), (3, 3)):
         out.append({"id": "bg:camera-counts:%dx%d" % (nx, ny),
                     "kind": "bgcounts", "nx": nx, "ny": ny, "tier": tier})
@@ -1275,11 +1292,99 @@ def _run_priors(case, ck):
 
 
 # --------------------------------------------------------------------------
+# --------------------------------------------------------------------------
+# histories
+# --------------------------------------------------------------------------
+HIST_TOOLS = ["bg", "bgdark", "normalize", "subimage", "zero", "detrend",
+              "acc", "centre"]
+# frames of one recording: the same shape and pixel size throughout; A starts
+# at the origin, B and C are windows of a larger frame (other origin, other
+# values), D holds integer counts, E has another pixel size
+HIST_VARIANTS = ["A", "B", "C", "D", "E"]
+_HIST = {}
+
+
+def _hist_frames():
+    if not _HIST:
+        from holopy.core.metadata import data_grid
+        nx, ny = 8, 10
+        i, j = np.mgrid[0:nx, 0:ny].astype(float)
+        kw = dict(medium_index=1.33, illum_wavelen=0.66,
+                  illum_polarization=(1, 0))
+        base = {"A": 2.0 + np.cos(1.3 * i + 0.4) * np.sin(0.9 * j + 0.2),
+                "B": 3.0 + 0.1 * i - 0.05 * j + ((i + 2 * j) % 3) * 0.2,
+                "C": 1.5 + 0.01 * i * j + ((3 * i + j) % 4) * 0.125,
+                "D": (40 + 3 * i + j + ((i + j) % 3)).astype(np.int64),
+                "E": 2.5 + 0.2 * np.sin(i) + 0.1 * j}
+        org = {"A": (0.0, 0.0), "B": (0.5, 1.25), "C": (-2.0, 3.0),
+               "D": (0.0, 0.0), "E": (0.0, 0.0)}
+        for v in HIST_VARIANTS:
+            sp = 0.125 if v != "E" else 0.25
+            im = data_grid(base[v], spacing=sp, name="frame" + v, **kw)
+            im = im.assign_coords(x=im.x + org[v][0], y=im.y + org[v][1])
+            _HIST[v] = im
+            bgv = 2.0 + 0.5 * ((i + 2 * j) % 3) + 0.01 * i
+            bg = data_grid(bgv, spacing=sp, name="bg" + v, **kw)
+            _HIST["bg" + v] = bg.assign_coords(x=im.x, y=im.y)
+            dk = data_grid(0.1 + 0.01 * j, spacing=sp, name="dark" + v, **kw)
+            _HIST["dark" + v] = dk.assign_coords(x=im.x, y=im.y)
+        _HIST["accum"] = None
+    return _HIST
+
+
+def _hist_inputs_fp():
+    F = _hist_frames()
+    return digest(*[fp_xarray(F[k]) for k in sorted(F) if k != "accum"])
+
+
+def _hist_op(name):
+    import warnings
+    warnings.simplefilter("ignore")
+    from holopy.core.process import (bg_correct, normalize, subimage,
+                                     zero_filter, detrend, center_find)
+    from holopy.core.io.io import Accumulator
+    F = _hist_frames()
+    tool, v = name.split("@")
+    im = F[v]
+    if tool == "bg":
+        r = bg_correct(im, F["bg" + v])
+    elif tool == "bgdark":
+        r = bg_correct(im, F["bg" + v], F["dark" + v])
+    elif tool == "normalize":
+        r = normalize(im)
+    elif tool == "subimage":
+        r = subimage(im, (4, 5), 4)
+    elif tool == "zero":
+        z = im.copy()
+        z.values[0, 3, 4] = 0
+        r = zero_filter(z)
+    elif tool == "detrend":
+        r = detrend(im)
+    elif tool == "acc":
+        a = Accumulator()
+        a.push(im)
+        a.push(F["bg" + v])
+        m, sd = a.mean(), a.std()
+        return digest(fp_xarray(m) if hasattr(m, "attrs") else repr(m),
+                      fp_xarray(sd) if hasattr(sd, "attrs") else repr(sd))
+    elif tool == "centre":
+        return digest(np.asarray(center_find(im), dtype=float))
+    else:
+        raise KeyError(name)
+    return fp_xarray(r)
+
+
+def _run_hist(case, ck):
+    return run_history(ck, case, _hist_op, _hist_inputs_fp, check="history")
+
+
 def run_case(case):
     import warnings
     warnings.simplefilter("ignore")
     ck = Checker()
     kind = case["kind"]
+    if kind == "hist":
+        return ck.result(fp=_run_hist(case, ck))
     outcome = "ok"
     if kind == "bgrefuse":
         fp, outcome = _run_bgrefuse(case, ck)
